@@ -17,13 +17,18 @@ pub struct RCfg {
     pub check_end_names: bool,
     /// 0 = read from the byte slice directly, n>0 = BufReader::with_capacity(n)
     pub bufcap: usize,
+    /// quick_xml Config::allow_unmatched_ends: a stray end tag is delivered as an End event
+    pub allow_unmatched_ends: bool,
+    /// the caller has already read this many events from the reader before handing it to the
+    /// library (fragment parsing); the recorded stream is the remaining one
+    pub skip_events: usize,
 }
 impl RCfg {
     pub fn default() -> RCfg {
-        RCfg { trim_text: false, expand_empty: false, check_end_names: true, bufcap: 0 }
+        RCfg { trim_text: false, expand_empty: false, check_end_names: true, bufcap: 0, allow_unmatched_ends: false, skip_events: 0 }
     }
     pub fn json(&self) -> J {
-        json::obj(vec![("trim_text", J::B(self.trim_text)), ("expand_empty_elements", J::B(self.expand_empty)), ("check_end_names", J::B(self.check_end_names)), ("bufreader_capacity", J::N(self.bufcap as i64))])
+        json::obj(vec![("trim_text", J::B(self.trim_text)), ("expand_empty_elements", J::B(self.expand_empty)), ("check_end_names", J::B(self.check_end_names)), ("bufreader_capacity", J::N(self.bufcap as i64)), ("allow_unmatched_ends", J::B(self.allow_unmatched_ends)), ("events_read_by_caller_first", J::N(self.skip_events as i64))])
     }
 }
 fn configure<R>(r: &mut Reader<R>, c: &RCfg) {
@@ -31,6 +36,18 @@ fn configure<R>(r: &mut Reader<R>, c: &RCfg) {
     cfg.trim_text(c.trim_text);
     cfg.expand_empty_elements = c.expand_empty;
     cfg.check_end_names = c.check_end_names;
+    cfg.allow_unmatched_ends = c.allow_unmatched_ends;
+}
+/// the caller reads `n` events itself before the library sees the reader
+fn skip<R: std::io::BufRead>(r: &mut Reader<R>, n: usize) {
+    let mut buf = Vec::new();
+    for _ in 0..n {
+        match r.read_event_into(&mut buf) {
+            Ok(Event::Eof) | Err(_) => break,
+            _ => {}
+        }
+        buf.clear();
+    }
 }
 
 // ------------------------------------------------------------------ error table
@@ -97,6 +114,7 @@ fn attrs_of(e: &quick_xml::events::BytesStart<'_>, tab: &mut ErrTab) -> Vec<Attr
 }
 fn record_from<R: BufRead>(mut reader: Reader<R>, cfg: &RCfg, tab: &mut ErrTab, limit: usize) -> Vec<Ev> {
     configure(&mut reader, cfg);
+    skip(&mut reader, cfg.skip_events);
     let mut buf = Vec::new();
     let mut out = vec![];
     loop {
@@ -394,6 +412,7 @@ fn parse_one(bytes: &[u8], cfg: &RCfg, prev: Option<Element<String>>) -> Result<
         ($r:expr) => {{
             let mut reader = $r;
             configure(&mut reader, cfg);
+            skip(&mut reader, cfg.skip_events);
             match prev {
                 None => into_struct(&mut reader),
                 Some(root) => extend_struct(&mut reader, root),
@@ -435,7 +454,7 @@ pub fn run_impl_guarded(docs: &[Vec<u8>], cfg: &RCfg, tab: &mut ErrTab, secs: u6
     let d = docs.to_vec();
     let c = *cfg;
     let mut t = tab.clone();
-    let _ = std::thread::Builder::new().stack_size(16 << 20).spawn(move || {
+    let _ = std::thread::Builder::new().stack_size(256 << 20).spawn(move || {
         let r = run_impl(&d, &c, &mut t);
         let _ = tx.send((r, t));
     });
